@@ -758,7 +758,11 @@ def gen_cli_min(r):
     w = r.pick([None, 0, mm, mm + 1, max(mm - 1, 1), mm + 5 + r.below(20)])
     d = {"m": m, "w": w, "p": r.pick([None, "s2m", "m2s"]), "t": r.pick([None, 0, 1, 2, 7, 16])}
     cont = r.pick(["fa", "fq", "faw"])
-    return "min", d, cont, gen_records(r, mm, nmax=12, maxlen=150, container=cont)
+    recs = gen_records(r, mm, nmax=12, maxlen=150, container=cont)
+    if r.below(2) and recs:          # many reads sharing their minimisers: every worker hits the same keys at once
+        base = [x for x in recs if len(x) >= mm][:3] or [bytes(r.choices(NUC, k=40))]
+        recs = [b for _ in range(40 + r.below(100)) for b in base]
+    return "min", d, cont, recs
 
 def gen_cli_ctr(r):
     d = {"k": edge(r, 10, 31, also=(10, 15, 21)) if r.below(8) else None, "m": edge(r, 6, 128, also=(6,)) if r.below(3) == 0 else None,
